@@ -78,6 +78,8 @@ def materialize(pj, d):
     for t in pj['targs']:
         with open(os.path.join(d, t + '.do'), 'w') as f:
             f.write(do_text(pj, t))
+    # a second name for the project directory: `here/t` is a spelling of `t` through a symbolic link to a directory
+    os.symlink('.', os.path.join(d, 'here'))
     # refuse to run below a foreign .redo
     x = os.path.dirname(d)
     while x != '/':
